@@ -51,7 +51,7 @@ def build(mode, gui=False):
     if mode == "asan":
         env["RUSTFLAGS"] = GUARD + " -Zsanitizer=address -Cforce-frame-pointers=yes"
         env["CARGO_TARGET_DIR"] = os.path.join(BUILD, "asan")
-        cmd += ["+nightly", "build", "--target", "x86_64-unknown-linux-gnu", "--config", nightly_patch_config()]
+        cmd += ["+nightly", "build", "--target", "x86_64-unknown-linux-gnu"]
         out = os.path.join(BUILD, "asan", "x86_64-unknown-linux-gnu", "debug", name)
     else:
         env["RUSTFLAGS"] = GUARD
@@ -65,8 +65,9 @@ def build(mode, gui=False):
     if gui:
         feats.append("gui")
     if mode == "asan":
-        # address-remembering allocation monitor off under sanitizers
+        # address-remembering allocation monitor off under sanitizers; death callback on
         cmd += ["--no-default-features"]
+        feats.append("asan")
     if feats:
         cmd += ["--features", ",".join(feats)]
     t0 = time.time()
@@ -153,6 +154,9 @@ def main(argv):
             for mode in ("dbg", "rel"):
                 _, dt = build(mode)
                 log("setup: built %s in %.1fs" % (mode, dt))
+            for mode in ("dbg", "rel", "asan"):
+                _, dt = build(mode, gui=True)
+                log("setup: built gui %s in %.1fs" % (mode, dt))
         except BuildError as e:
             log(str(e))
             return 2
